@@ -22,6 +22,7 @@ RULE += ("  " + 'Also (round 6): a server without anonymous fall-back: a session
 RULE += ("  " + 'Also (round 7): data_ports handed over as tuple, generator, iterator, map or range.')
 RULE += ("  " + 'Also (round 8): close() and a second start() of the same Server object, then the pool and re-open checks; listener start-ups that take 3-8 iterations before they bind, with pipelined PASV / EPSV.')
 RULE += ("  " + 'Also (round 10): EPSV with a protocol argument (1, 2, ALL, 3) before any listener, then quit or cut.')
+RULE += ("  " + 'Also (round 11): the session ends while its data connection holds unsent bytes for a peer that keeps it open and does not read (cut_control).')
 ASSUMPTIONS = [
     "network is the in-memory model of harness/simnet.py (validated against loopback on fault-free scripts)",
     "listener start-up has 0..2 suspension points before and 1..2 after bind (CPython 3.12 has gather+sleep(0))",
